@@ -1818,4 +1818,309 @@ theorem chk16_unpack {x : Nat} (h : chk16 x = true) :
   · exact e h12
 
 
+
+/-! ## FAST(uNNCLZ), FAST(uNNCTZ) for all 32- and 64-bit words: the dichotomy, step by step -/
+
+/-- one step of the dichotomy of FAST(uNNCLZ): `if (t = w >> s) l -= s, w = t;` -/
+def clzStep (s : Nat) (p : Nat × Nat) : Nat × Nat :=
+  if p.2 >>> s ≠ 0 then (p.1 - s, p.2 >>> s) else p
+/-- the return statement of FAST(uNNCLZ) -/
+def clzFin (p : Nat × Nat) : Nat :=
+  if p.2 >>> 1 ≠ 0 then p.1 - 2 else p.1 - (if p.2 ≠ 0 then 1 else 0)
+
+theorem u64CLZ_fast_steps (x : Nat) : u64CLZ_fast x =
+    clzFin (clzStep 2 (clzStep 4 (clzStep 8 (clzStep 16 (clzStep 32 (64, x)))))) := by
+  rfl
+
+structure ClzInv (N x s2 l w d : Nat) : Prop where
+  hw : w = x / 2 ^ d
+  hl : l + d = N
+  hlt : w < 2 ^ s2
+  hs : s2 ≤ l
+  hd : d = 0 ∨ w ≠ 0
+
+theorem clz_stage {N x s l w d : Nat} (h : ClzInv N x (2 * s) l w d) :
+    ∃ d', ClzInv N x s (clzStep s (l, w)).1 (clzStep s (l, w)).2 d' := by
+  unfold clzStep
+  simp only [Nat.shiftRight_eq_div_pow]
+  by_cases c : w / 2 ^ s ≠ 0
+  · rw [if_pos c]
+    refine ⟨d + s, ?_, ?_, ?_, ?_, Or.inr c⟩
+    · simp only; rw [h.hw, Nat.div_div_eq_div_mul, Nat.pow_add]
+    · have := h.hl; have := h.hs; simp only; omega
+    · simp only
+      apply Nat.div_lt_of_lt_mul
+      have := h.hlt
+      rwa [Nat.two_mul, Nat.pow_add] at this
+    · have := h.hs; simp only; omega
+  · rw [if_neg c]
+    refine ⟨d, h.hw, h.hl, ?_, by have := h.hs; simp only; omega, h.hd⟩
+    simp only
+    have : w / 2 ^ s = 0 := by simpa using c
+    exact (Nat.div_eq_zero_iff_lt (Nat.two_pow_pos s)).mp this
+
+theorem clz_fin {N x l w d : Nat} (h : ClzInv N x 2 l w d) : ClzSpec N x (clzFin (l, w)) := by
+  obtain ⟨hw, hl, hlt, hs, hd⟩ := h
+  unfold clzFin ClzSpec
+  simp only [Nat.shiftRight_eq_div_pow, Nat.pow_one]
+  have hlt' : w < 4 := hlt
+  constructor
+  · intro hx
+    have hw0 : w = 0 := by rw [hw, hx, Nat.zero_div]
+    have hd0 : d = 0 := by rcases hd with h1 | h1; exact h1; exact absurd hw0 h1
+    subst hw0
+    simp; omega
+  · intro hx
+    have hwne : w ≠ 0 := by
+      rcases hd with h1 | h1
+      · subst h1; rw [hw]; simpa using hx
+      · exact h1
+    by_cases c : w / 2 ≠ 0
+    · rw [if_pos c]
+      refine ⟨by omega, ?_⟩
+      have e : N - 1 - (l - 2) = d + 1 := by omega
+      rw [e, Nat.pow_succ, ← Nat.div_div_eq_div_mul, ← hw]; omega
+    · rw [if_neg c, if_pos hwne]
+      refine ⟨by omega, ?_⟩
+      have e : N - 1 - (l - 1) = d := by omega
+      rw [e, ← hw]; omega
+
+theorem u64CLZ_fast_gen (x : Nat) (hx : x < 2 ^ 64) : ClzSpec 64 x (u64CLZ_fast x) := by
+  rw [u64CLZ_fast_steps]
+  have h0 : ClzInv 64 x (2 * 32) 64 x 0 := ⟨by simp, rfl, hx, by decide, Or.inl rfl⟩
+  obtain ⟨d1, h1⟩ := clz_stage h0
+  obtain ⟨d2, h2⟩ := clz_stage (s := 16) h1
+  obtain ⟨d3, h3⟩ := clz_stage (s := 8) h2
+  obtain ⟨d4, h4⟩ := clz_stage (s := 4) h3
+  obtain ⟨d5, h5⟩ := clz_stage (s := 2) h4
+  exact clz_fin h5
+
+
+/-- one step of the dichotomy of FAST(uNNCTZ): `if (t = w << s) l -= s, w = t;` in NN-bit words -/
+def ctzStep (M s : Nat) (p : Nat × Nat) : Nat × Nat :=
+  if (p.2 <<< s) % M ≠ 0 then (p.1 - s, (p.2 <<< s) % M) else p
+/-- the return statement of FAST(uNNCTZ) -/
+def ctzFin (M : Nat) (p : Nat × Nat) : Nat :=
+  if (p.2 <<< 1) % M ≠ 0 then p.1 - 2 else p.1 - (if p.2 ≠ 0 then 1 else 0)
+
+/-- the shape of FAST(u64CTZ) / FAST(u32CTZ) over an abstract "shift left in the word" `f s w` -/
+def ctzGen64 (f : Nat → Nat → Nat) (w : Nat) : Nat :=
+  let l := 64
+  let t := f 32 w
+  let (l, w) := if t ≠ 0 then (l - 32, t) else (l, w)
+  let t := f 16 w
+  let (l, w) := if t ≠ 0 then (l - 16, t) else (l, w)
+  let t := f 8 w
+  let (l, w) := if t ≠ 0 then (l - 8, t) else (l, w)
+  let t := f 4 w
+  let (l, w) := if t ≠ 0 then (l - 4, t) else (l, w)
+  let t := f 2 w
+  let (l, w) := if t ≠ 0 then (l - 2, t) else (l, w)
+  if f 1 w ≠ 0 then l - 2 else l - (if w ≠ 0 then 1 else 0)
+def ctzGen32 (f : Nat → Nat → Nat) (w : Nat) : Nat :=
+  let l := 32
+  let t := f 16 w
+  let (l, w) := if t ≠ 0 then (l - 16, t) else (l, w)
+  let t := f 8 w
+  let (l, w) := if t ≠ 0 then (l - 8, t) else (l, w)
+  let t := f 4 w
+  let (l, w) := if t ≠ 0 then (l - 4, t) else (l, w)
+  let t := f 2 w
+  let (l, w) := if t ≠ 0 then (l - 2, t) else (l, w)
+  if f 1 w ≠ 0 then l - 2 else l - (if w ≠ 0 then 1 else 0)
+def ctzStepG (f : Nat → Nat → Nat) (s : Nat) (p : Nat × Nat) : Nat × Nat :=
+  if f s p.2 ≠ 0 then (p.1 - s, f s p.2) else p
+def ctzFinG (f : Nat → Nat → Nat) (p : Nat × Nat) : Nat :=
+  if f 1 p.2 ≠ 0 then p.1 - 2 else p.1 - (if p.2 ≠ 0 then 1 else 0)
+theorem ctzGen64_steps (f : Nat → Nat → Nat) (x : Nat) : ctzGen64 f x =
+    ctzFinG f (ctzStepG f 2 (ctzStepG f 4 (ctzStepG f 8 (ctzStepG f 16 (ctzStepG f 32 (64, x)))))) :=
+  rfl
+theorem ctzGen32_steps (f : Nat → Nat → Nat) (x : Nat) : ctzGen32 f x =
+    ctzFinG f (ctzStepG f 2 (ctzStepG f 4 (ctzStepG f 8 (ctzStepG f 16 (32, x))))) := rfl
+theorem u64CTZ_fast_gen' (x : Nat) :
+    u64CTZ_fast x = ctzGen64 (fun s w => (w <<< s) % 0x10000000000000000) x := by
+  simp only [u64CTZ_fast, ctzGen64]
+theorem u32CTZ_fast_gen' (x : Nat) :
+    u32CTZ_fast x = ctzGen32 (fun s w => (w <<< s) % 0x100000000) x := by
+  simp only [u32CTZ_fast, ctzGen32]
+theorem ctzStepG_eq (M s : Nat) (p : Nat × Nat) :
+    ctzStepG (fun s w => (w <<< s) % M) s p = ctzStep M s p := rfl
+theorem ctzFinG_eq (M : Nat) (p : Nat × Nat) :
+    ctzFinG (fun s w => (w <<< s) % M) p = ctzFin M p := rfl
+theorem u64CTZ_fast_steps (x : Nat) : u64CTZ_fast x =
+    ctzFin 0x10000000000000000 (ctzStep 0x10000000000000000 2 (ctzStep 0x10000000000000000 4
+      (ctzStep 0x10000000000000000 8 (ctzStep 0x10000000000000000 16
+        (ctzStep 0x10000000000000000 32 (64, x)))))) := by
+  rw [u64CTZ_fast_gen', ctzGen64_steps]
+  simp only [ctzStepG_eq, ctzFinG_eq]
+theorem u32CTZ_fast_steps (x : Nat) : u32CTZ_fast x =
+    ctzFin 0x100000000 (ctzStep 0x100000000 2 (ctzStep 0x100000000 4
+      (ctzStep 0x100000000 8 (ctzStep 0x100000000 16 (32, x))))) := by
+  rw [u32CTZ_fast_gen', ctzGen32_steps]
+  simp only [ctzStepG_eq, ctzFinG_eq]
+
+/-- invariant: `w` is `x` shifted left by `d = N - l` places (in N-bit words), and the bits of `w`
+    below position `N - s2` are zero -/
+structure CtzInv (N x s2 l w d : Nat) : Prop where
+  hw : w = (x * 2 ^ d) % 2 ^ N
+  hl : l + d = N
+  hlo : ∀ k, k + s2 < N → w.testBit k = false
+  hs : s2 ≤ l
+  hd : d = 0 ∨ w ≠ 0
+
+theorem ctz_stage {N x s l w d : Nat} (h : CtzInv N x (2 * s) l w d) :
+    ∃ d', CtzInv N x s (ctzStep (2 ^ N) s (l, w)).1 (ctzStep (2 ^ N) s (l, w)).2 d' := by
+  obtain ⟨hw, hl, hlo, hs, hd⟩ := h
+  unfold ctzStep
+  simp only [Nat.shiftLeft_eq]
+  by_cases c : (w * 2 ^ s) % 2 ^ N ≠ 0
+  · rw [if_pos c]
+    refine ⟨d + s, ?_, by simp only; omega, ?_, by simp only; omega, Or.inr c⟩
+    · simp only
+      rw [hw, Nat.mod_mul_mod, Nat.pow_add, Nat.mul_assoc]
+    · intro k hk
+      simp only
+      rw [Nat.testBit_mod_two_pow, Nat.testBit_mul_two_pow]
+      by_cases c1 : s ≤ k
+      · rw [hlo (k - s) (by omega)]; simp
+      · simp [c1]
+  · rw [if_neg c]
+    have hz : (w * 2 ^ s) % 2 ^ N = 0 := by simpa using c
+    refine ⟨d, hw, hl, ?_, by simp only; omega, hd⟩
+    intro k hk
+    simp only
+    have : ((w * 2 ^ s) % 2 ^ N).testBit (k + s) = false := by rw [hz]; exact Nat.zero_testBit _
+    rw [Nat.testBit_mod_two_pow, Nat.testBit_mul_two_pow] at this
+    have c1 : k + s < N := hk
+    have c2 : s ≤ k + s := by omega
+    simpa [c1, c2] using this
+
+theorem ctz_fin {N x l w d : Nat} (hN : 2 ≤ N) (hx : x < 2 ^ N) (h : CtzInv N x 2 l w d) :
+    CtzSpec N x (ctzFin (2 ^ N) (l, w)) := by
+  obtain ⟨hw, hl, hlo, hs, hd⟩ := h
+  -- bits of w in terms of x
+  have hb : ∀ k, w.testBit k = (decide (k < N) && (decide (d ≤ k) && x.testBit (k - d))) := by
+    intro k; rw [hw, Nat.testBit_mod_two_pow, Nat.testBit_mul_two_pow]
+  have hxlow : ∀ j, j + d + 2 < N → x.testBit j = false := by
+    intro j hj
+    have := hlo (j + d) (by omega)
+    rw [hb] at this
+    have c1 : j + d < N := by omega
+    have c2 : d ≤ j + d := by omega
+    simpa [c1, c2] using this
+  unfold ctzFin CtzSpec
+  simp only [Nat.shiftLeft_eq, Nat.pow_one]
+  constructor
+  · intro hx0
+    have hw0 : w = 0 := by rw [hw, hx0]; simp
+    have hd0 : d = 0 := by rcases hd with h1 | h1; exact h1; exact absurd hw0 h1
+    subst hw0
+    simp; omega
+  · intro hx0
+    have hwne : w ≠ 0 := by
+      rcases hd with h1 | h1
+      · subst h1; rw [hw]; simp only [Nat.pow_zero, Nat.mul_one]
+        rw [Nat.mod_eq_of_lt hx]; exact hx0
+      · exact h1
+    -- from a position c with bit c of x set and all lower bits clear
+    have key : ∀ c, x.testBit c = true → (∀ j, j < c → x.testBit j = false) →
+        x % 2 ^ c = 0 ∧ x / 2 ^ c % 2 = 1 := by
+      intro c h1 h2
+      constructor
+      · apply Nat.eq_of_testBit_eq; intro j
+        rw [Nat.testBit_mod_two_pow, Nat.zero_testBit]
+        by_cases cj : j < c
+        · simp [h2 j cj]
+        · simp [cj]
+      · rw [Nat.testBit_eq_decide_div_mod_eq] at h1
+        simpa using h1
+    by_cases c : (w * 2) % 2 ^ N ≠ 0
+    · -- bit N - 2 of w is set
+      rw [if_pos c]
+      have hbit : w.testBit (N - 2) = true := by
+        by_contra hne
+        have hne : w.testBit (N - 2) = false := by simpa using hne
+        apply c
+        apply Nat.eq_of_testBit_eq; intro k
+        have e : w * 2 = w * 2 ^ 1 := by rw [Nat.pow_one]
+        rw [e, Nat.testBit_mod_two_pow, Nat.testBit_mul_two_pow, Nat.zero_testBit]
+        by_cases c1 : k < N
+        · by_cases c2 : 1 ≤ k
+          · by_cases c3 : k - 1 = N - 2
+            · rw [c3, hne]; simp
+            · rw [hlo (k - 1) (by omega)]; simp
+          · simp [c2]
+        · simp [c1]
+      rw [hb] at hbit
+      have c1 : N - 2 < N := by omega
+      simp only [c1, decide_true, Bool.true_and, Bool.and_eq_true, decide_eq_true_eq] at hbit
+      obtain ⟨hd2, hxb⟩ := hbit
+      have e : N - 2 - d = l - 2 := by omega
+      rw [e] at hxb
+      refine ⟨by omega, key (l - 2) hxb (fun j hj => hxlow j (by omega))⟩
+    · rw [if_neg c, if_pos hwne]
+      have hz : (w * 2) % 2 ^ N = 0 := by simpa using c
+      -- bits below N - 1 of w are zero, so bit N - 1 is set
+      have hlow1 : ∀ k, k + 1 < N → w.testBit k = false := by
+        intro k hk
+        have : ((w * 2 ^ 1) % 2 ^ N).testBit (k + 1) = false := by
+          rw [Nat.pow_one, hz]; exact Nat.zero_testBit _
+        rw [Nat.testBit_mod_two_pow, Nat.testBit_mul_two_pow] at this
+        have c2 : 1 ≤ k + 1 := by omega
+        simpa [hk, c2] using this
+      have hwlt : w < 2 ^ N := by rw [hw]; exact Nat.mod_lt _ (Nat.two_pow_pos N)
+      have hbit : w.testBit (N - 1) = true := by
+        by_contra hne
+        have hne : w.testBit (N - 1) = false := by simpa using hne
+        apply hwne
+        apply Nat.eq_of_testBit_eq; intro k
+        rw [Nat.zero_testBit]
+        by_cases c1 : k + 1 < N
+        · exact hlow1 k c1
+        · by_cases c2 : k = N - 1
+          · rw [c2]; exact hne
+          · exact Nat.testBit_lt_two_pow (Nat.lt_of_lt_of_le hwlt
+              (Nat.pow_le_pow_right (by decide) (by omega)))
+      rw [hb] at hbit
+      have c1 : N - 1 < N := by omega
+      simp only [c1, decide_true, Bool.true_and, Bool.and_eq_true, decide_eq_true_eq] at hbit
+      obtain ⟨hd2, hxb⟩ := hbit
+      have e : N - 1 - d = l - 1 := by omega
+      rw [e] at hxb
+      refine ⟨by omega, key (l - 1) hxb (fun j hj => ?_)⟩
+      have := hlow1 (j + d) (by omega)
+      rw [hb] at this
+      have c3 : j + d < N := by omega
+      have c4 : d ≤ j + d := by omega
+      simpa [c3, c4] using this
+
+theorem ctz_init {N x : Nat} (hx : x < 2 ^ N) (s : Nat) (hs : 2 * s = N) :
+    CtzInv N x (2 * s) N x 0 :=
+  ⟨by simp [Nat.mod_eq_of_lt hx], rfl, fun k hk => by omega, by omega, Or.inl rfl⟩
+
+attribute [irreducible] ctzStep ctzFin
+
+theorem pow64 : (0x10000000000000000 : Nat) = 2 ^ 64 := by norm_num
+theorem pow32 : (0x100000000 : Nat) = 2 ^ 32 := by norm_num
+
+theorem u64CTZ_fast_gen (x : Nat) (hx : x < 2 ^ 64) : CtzSpec 64 x (u64CTZ_fast x) := by
+  rw [u64CTZ_fast_steps, pow64]
+  have h0 : CtzInv 64 x (2 * 32) 64 x 0 := ctz_init hx 32 rfl
+  obtain ⟨d1, h1⟩ := ctz_stage h0
+  obtain ⟨d2, h2⟩ := ctz_stage (N := 64) (s := 16) h1
+  obtain ⟨d3, h3⟩ := ctz_stage (N := 64) (s := 8) h2
+  obtain ⟨d4, h4⟩ := ctz_stage (N := 64) (s := 4) h3
+  obtain ⟨d5, h5⟩ := ctz_stage (N := 64) (s := 2) h4
+  exact ctz_fin (N := 64) (by decide) hx h5
+
+
+theorem u32CTZ_fast_gen (x : Nat) (hx : x < 2 ^ 32) : CtzSpec 32 x (u32CTZ_fast x) := by
+  rw [u32CTZ_fast_steps, pow32]
+  have h0 : CtzInv 32 x (2 * 16) 32 x 0 := ctz_init hx 16 rfl
+  obtain ⟨d1, h1⟩ := ctz_stage h0
+  obtain ⟨d2, h2⟩ := ctz_stage (N := 32) (s := 8) h1
+  obtain ⟨d3, h3⟩ := ctz_stage (N := 32) (s := 4) h2
+  obtain ⟨d4, h4⟩ := ctz_stage (N := 32) (s := 2) h3
+  exact ctz_fin (N := 32) (by decide) hx h4
+
 end Bee2V.C05
